@@ -368,6 +368,8 @@ def episode(ctx, t, prop, family, tools, memo, mm, rep):
         ctx.probe("list-element-postponed-while-later-resolved")
     if nfiles > 1:
         ctx.probe("multi-file")
+    if getattr(w, "repeated_targets", False):
+        ctx.probe("list-with-a-repeated-target")
     if outcome == "error":
         ctx.probe("load-failed")
     ctx.sig = [family, mode, sched.trace]
